@@ -191,9 +191,14 @@ def _run_task(arg):
     signal.signal(signal.SIGALRM, _alarm)
     signal.setitimer(signal.ITIMER_REAL, _TASK_BUDGET)
     try:
-        out = _TASK_FN(item)
+        try:
+            out = _TASK_FN(item)
+        except Hang:
+            # a loaded machine must not look like non-termination: one retry with three times the budget
+            signal.setitimer(signal.ITIMER_REAL, _TASK_BUDGET * 3)
+            out = _TASK_FN(item)
     except Hang:
-        out = {'outcome': 'hang', 'viol': [viol('hang:task', 'state exceeded its time budget of %ss' % _TASK_BUDGET,
+        out = {'outcome': 'hang', 'viol': [viol('hang:task', 'state exceeded its time budget of %ss (and of %ss on retry)' % (_TASK_BUDGET, 3 * _TASK_BUDGET),
                                                  {'item': repr(item)[:2000]})]}
     except InternalError:
         out = {'internal': traceback.format_exc()}
